@@ -14,6 +14,7 @@ different options `pnext` offers.
 | `partition.Service.GetParitionInfo`                                 | `acqTags tags false`                      |
 | `partition.Service.GetJournal` + the later `Release` (cursor on `state.Src`, pipes), `tmirebuilder.serve`, one round of `cleanupTsIndex` | `idLoopOf srcs false` |
 | `partition.Service.truncateGlobally` (`MAXDBSIZE` pass: acquire by id, `deleteJournal`, `Release`) | `idLoopOf srcs true` |
+| `ppipe.catchUp` (once per loaded pipe at server start, f54d781: for every source with a saved position `GetJournal(src)`, look at the chunks, maybe start a worker, `Release(src)` on every path — regenerated fact `acquiredAtExit`) | `catchUp srcs` = `idLoopOf srcs false` |
 | `ppipe.cleanPartitions` (`GetJournalTags(src, false)`)              | `peekOf srcs`                             |
 | `partition.Service.Partitions`                                      | `vStart .partitions sel`                  |
 | `partition.Service.GetJournals` (ok / limit / repaired error path) followed by the holder of the result giving it back (`cursor.close`, the error path's loop over `res`) | `vStart .getJournals sel` |
@@ -222,6 +223,9 @@ def newCursorByQuery (sel : List Nat) : Ctl := .vStart .getJournals sel
 
 /-- `cursor.newCursor` for `state.Src` -/
 def newCursorBySrc (s : Nat) : Ctl := idLoopOf [s] false
+
+/-- `ppipe.catchUp`: per source of the pipe acquire by id (not found / shut down: next source), release -/
+def catchUp (srcs : List Nat) : Ctl := idLoopOf srcs false
 
 /-- the system: the shared state and every actor's control state (actors without a program are `fin`) -/
 structure Sys where
